@@ -545,6 +545,13 @@ func sec2D(r *vlib.Run) {
 				ns = append(ns, [2]int{q, q + 1}, [2]int{q + 1, first[s[1]]})
 			}
 			pts, segs = np, ns
+			if it+1 < iters && closePair2(pts, 4e-12*(in.maxA+in.size)) {
+				// two corner points of an intermediate level coincide (the outline
+				// crosses itself there): the next level is built on a vertex with
+				// four segments, which the documented precondition (manifold) excludes
+				c.Undecided("chaikin:intermediate level has coincident points")
+				return
+			}
 		}
 		n := len(in.segs)
 		for i := 0; i < iters; i++ {
@@ -760,4 +767,21 @@ func sec2D(r *vlib.Run) {
 			}
 		}
 	})
+}
+
+// closePair2 reports whether two of the points are within tol of each other.
+func closePair2(pts []C2, tol float64) bool {
+	order := make([]int, len(pts))
+	for i := range order {
+		order[i] = i
+	}
+	sort.Slice(order, func(a, b int) bool { return pts[order[a]].X < pts[order[b]].X })
+	for i := range order {
+		for j := i + 1; j < len(order) && pts[order[j]].X-pts[order[i]].X <= tol; j++ {
+			if pts[order[i]].Dist(pts[order[j]]) <= tol {
+				return true
+			}
+		}
+	}
+	return false
 }
